@@ -277,7 +277,13 @@ fn locate_law(l: &mut Law, p: &Pointer, info: &ErrInfo, expected: Result<(), &Re
             if len > 0 {
                 l.ck(off == info.off + 1, "label_offset_is_not_token_start");
             } else {
-                l.ck((off == info.off || off == info.off + 1) && off <= text.len(), "empty_label_misplaced");
+                // an empty token's span is empty and sits where the token's bytes would be — right behind its `/` — whenever the pointer
+                // goes on after it (`/a//b`: between the two slashes); for a trailing empty token either end of its `/` is accepted
+                if info.off + 1 < text.len() {
+                    l.ck(off == info.off + 1, "empty_label_is_not_behind_the_slash_of_its_token");
+                } else {
+                    l.ck((off == info.off || off == info.off + 1) && off <= text.len(), "empty_label_misplaced");
+                }
             }
             l.ck(off.checked_add(len).map_or(false, |e| e <= text.len()), "label_past_end");
         }
